@@ -4,7 +4,7 @@ random entries changed); after the call EVERY rank must hold: all_fun' = concate
 all_sym' / all_inv_subs' take the local entry (a copy, or None) exactly where the string changed and are unchanged elsewhere."""
 import random
 import numpy as np
-from hcommon import io_main
+from hcommon import io_main, short_err
 
 
 def _inputs(N, P, seed):
@@ -96,7 +96,7 @@ def main(p):
             bad = [i for i, x in enumerate(r) if x["status"] != "ok"]
             if bad:
                 fails.append({"N": N, "P": P, "seed": seed, "error": "make_changes on %d ranks (N=%d) did not complete on ranks %s: %s" % (
-                    P, N, bad[:6], ([x["error"] for x in r if x["error"]] or ["hang"])[0][-400:])})
+                    P, N, bad[:6], short_err(([x["error"] for x in r if x["error"]] or ["hang"])[0]))})
                 continue
             msgs = [x["result"] for x in r if x["result"]]
             if msgs:
